@@ -53,7 +53,7 @@ func runC01(p *Program, r *Report) {
 	for _, m := range []struct {
 		r string
 		n int
-	}{{"C01.R1", 12}, {"C01.R2", 9}, {"C01.R3", 4}, {"C01.R4", 1}, {"C01.R5", 12}, {"C01.R6", 6}, {"C01.R7", 8}, {"C01.R8", 1}, {"C01.R9", 7}, {"C01.R10", 2}, {"C01.R11", 1}, {"C01.R12", 15}, {"C01.R13", 1}, {"C01.R14", 3}, {"C01.R15", 5}, {"C01.R16", 3}, {"C01.R17", 1}} {
+	}{{"C01.R1", 12}, {"C01.R2", 9}, {"C01.R3", 4}, {"C01.R4", 1}, {"C01.R5", 12}, {"C01.R6", 6}, {"C01.R7", 8}, {"C01.R8", 1}, {"C01.R9", 7}, {"C01.R10", 2}, {"C01.R11", 1}, {"C01.R12", 15}, {"C01.R13", 1}, {"C01.R14", 3}, {"C01.R15", 5}, {"C01.R16", 3}, {"C01.R17", 1}, {"C01.R18", 1}, {"C01.R19", 3}, {"C01.R20", 1}} {
 		r.Min(m.r, m.n)
 	}
 	checkSpeculativeMerge(p, r, "C01.R9")
@@ -323,6 +323,9 @@ func runC01(p *Program, r *Report) {
 	checkContextEqStrict(p, r, "C01.R15")
 	checkActionAdvance(p, r, "C01.R16")
 	checkRangeReentryAgreement(p, r, "C01.R17")
+	checkJoinRecordsValueDisagreement(p, r, "C01.R18")
+	checkScannerLoopState(p, r, "C01.R19")
+	checkCursorOffsetAgreement(p, r, "C01.R20")
 	// ---- R6 joins -----------------------------------------------------------------------------------------
 	checkJoins(p, r)
 	checkMemoOutput(p, r, "C01.R6")
@@ -423,6 +426,20 @@ func checkContextFieldCompleteness(p *Program, r *Report) {
 	// a flag accumulated in one branch only (set by an action in the {{else}} branch, by an inner join) is
 	// otherwise forgotten at the join
 	checkJoinMergesBoth(p, r, "C01.R14", "")
+}
+
+// checkJoinRecordsValueDisagreement: join() keeps the static attribute value of one branch; that the branches
+// wrote different text must be recorded in a flag, and "different" must mean different as written: the prefix
+// validators look at the raw text (a partial character reference at its end, a '#' or '?' spelled as a reference),
+// so two spellings that merely decode to the same string are not interchangeable.
+func checkJoinRecordsValueDisagreement(p *Program, r *Report, rule string) {
+	join := p.Func("template", "join")
+	if join == nil {
+		r.Undec(rule, "template.join", "", "anchor not found")
+		return
+	}
+	flags := contextFlagStores(join, 0, "value")
+	r.Check(len(flags) > 0, rule, "template.join#records-raw-value-disagreement", p.Pos(join.Pos()), fmt.Sprintf("a flag (%v) is set where the two static attribute values differ as written", flags), "join() sets no flag under a direct comparison of the two static attribute values: branches whose values differ only in spelling (\"&amp;#\" and \"&#\") are merged as equal and only the first one is validated — the other can end in a partial character reference that the data completes")
 }
 
 // checkJoinMergesBoth: every field (under prefix) that join() assigns in its first operand is read from the second.
